@@ -47,7 +47,7 @@ _SHARED = {}
 
 def gen_cases(tier, seed):
     rnd = random.Random(f"C11:{seed}")
-    reps = 12 if tier == "quick" else 60
+    reps = 12 if tier == "quick" else 300
     cases = []
     for rep in range(reps):
         for i, o, pres, lay in itertools.product(IN_TYPES, OUT_TYPES, (True, False), LAYOUTS):
